@@ -38,6 +38,7 @@ def front(sources: dict[str, str], cache_dir: str, strict: bool = False) -> Fron
     o.strict_optional = True
     o.incremental = True
     o.cache_dir = cache_dir
+    o.sqlite_cache = False        # one sqlite connection per build() would be leaked: thousands of builds per run
     o.mypyc = True
     o.disallow_untyped_defs = strict
     o.per_module_options = {}
@@ -47,6 +48,10 @@ def front(sources: dict[str, str], cache_dir: str, strict: bool = False) -> Fron
                           flush_errors=lambda f, m, s: msgs.extend(m), fscache=FileSystemCache())
     except CompileError as e:
         return FrontResult(errors=list(e.messages) or msgs)
+    try:
+        res.manager.metastore.close()
+    except Exception:  # noqa: BLE001
+        pass
     errs = [m for m in msgs if ": error:" in m]
     if errs:
         return FrontResult(errors=errs)
